@@ -7,7 +7,7 @@ import numpy as np
 
 from harness.core import R, close
 
-METRICS = ["sel", "tpr", "fpr", "fnr", "tnr", "acc", "prec", "zol", "smean", "precn", "tpc"]
+METRICS = ["sel", "tpr", "fpr", "fnr", "tnr", "acc", "prec", "zol", "smean", "precn", "tpc", "amean"]
 SIGNED = {"smean"}
 # group id -> concrete label; sort order (alphabetical) differs from the id order
 GLABEL = {1: "m_one", 2: "z_two", 3: "a_three", 4: "k_four", 5: "b_five"}
@@ -27,6 +27,11 @@ def signed_mean(y_true, y_pred, sample_weight=None):
     return float(np.dot(v, w) / w.sum())
 
 
+def abs_signed_mean(y_true, y_pred, sample_weight=None):
+    """a NON-NEGATIVE metric that is not a mean: |signed_mean|; its overall value can be 0 while its group values are not"""
+    return abs(signed_mean(y_true, y_pred, sample_weight))
+
+
 def tp_count(y_true, y_pred, sample_weight=None):
     """an INTEGER-valued metric: number of true positives (weights ignored)"""
     return int(np.sum((np.asarray(y_true) == 1) & (np.asarray(y_pred) == 1)))
@@ -42,7 +47,7 @@ def metric_fns():
     precn.__name__ = "precision_nan"
     return {"sel": fm.selection_rate, "tpr": fm.true_positive_rate, "fpr": fm.false_positive_rate,
             "fnr": fm.false_negative_rate, "tnr": fm.true_negative_rate, "acc": skm.accuracy_score,
-            "prec": prec, "zol": skm.zero_one_loss, "smean": signed_mean, "precn": precn, "tpc": tp_count}
+            "prec": prec, "zol": skm.zero_one_loss, "smean": signed_mean, "precn": precn, "tpc": tp_count, "amean": abs_signed_mean}
 
 
 def order_for(case_rows, seed, which):
